@@ -23,6 +23,9 @@ pub enum Flavour {
     WarnErr,
     /// Exclusive system returning `WarnErr`; returns `Err` after applying its commands on some runs.
     ExclErr,
+    /// Ordinary system returning a custom `CobwebResult` whose `handle` queues one more (marker) command on the
+    /// world's command queue: work the run queued after its own deferred commands were applied.
+    Follow,
     /// The zero-sized `fn` item `exec::zst_body` (no captured state): every registration of it is the *same*
     /// function type, so only the framework keeps their system states apart.
     Zst,
@@ -449,6 +452,9 @@ pub fn gen_flavour(r: &mut Rng, p: &Profile) -> Flavour {
     }
     if r.chance(5) {
         return Flavour::ExclErr;
+    }
+    if r.chance(5) {
+        return Flavour::Follow;
     }
     match weighted(r, &p.flavour_w) {
         0 => Flavour::Ord,
